@@ -686,6 +686,77 @@ def stream_layout(ctx):
         if run_expr(exprs[k]) != firsts[k]:
             ctx.witness('stateless-expr', {'text': exprs[k]}, brief(firsts[k]), 'differs on second call')
 
+    stream_history(ctx, rng)
+
+
+def _perturb_inside(rng, text):
+    """variants of `text` that differ from it ONLY in the blanks inside quoted strings and bracketed names (other texts, other
+    programs) or only in the blanks between tokens (same program)"""
+    out = []
+    inner = re.sub(r"('[^'\\\n]*'|\"[^\"\\\n]*\"|\[[^\]\\\n]*\])",
+                   lambda m: m.group(0)[0] + re.sub(r' +', lambda w: ' ' * rng.choice([1, 2, 3]), m.group(0)[1:-1]).replace('\t', ' ') + m.group(0)[-1], text)
+    if inner != text:
+        out.append(inner)
+    doubled = re.sub(r"('[^'\\\n]*'|\"[^\"\\\n]*\"|\[[^\]\\\n]*\])", lambda m: m.group(0).replace(' ', '  '), text)
+    if doubled != text:
+        out.append(doubled)
+    out.append(re.sub(r'(?<=\S) (?=\S)', '  ', text, count=rng.choice([1, 2, 3])))
+    out.append(text.replace(' * *', ' **').replace('< =', '<='))
+    return [v for v in out if v != text]
+
+
+HISTORY_BASES = ["v = 'a  b' + [x  y]", "w = f('p q', 'p  q')", 'a = b * c + d', "s = 'tab\there' + \"two  blanks\"", "t = [odd   name] - 1",
+                 "u = 'x' + 'x ' + ' x' + 'x  '", "if [a b] == 'a b':\n    r = 'a  b'\nendif", "return  'one   two'", "k = g( 'a' , 'a ' )",
+                 "jumpif ([l  m] < 'l m') lbl\nlbl:", "for v in f('i  j'):\n    x = [v  w]\nendfor", "z = '  lead' + 'trail  ' + ' '"]
+
+
+def stream_history(ctx, rng):
+    """parse results do not depend on what was parsed before: families of near-identical texts (they differ only in the blanks
+    inside string literals / bracketed names, or only in the blanks between tokens) are parsed in this process in one order and
+    by a fresh interpreter in the reverse order; every text must get the same result in both histories"""
+    st = ctx.stream('history', 'families of near-identical texts (differing only in blanks inside string literals / bracketed names, or only '
+                               'between tokens): each parsed here in generation order (after everything the earlier streams parsed) and by '
+                               'a fresh interpreter process in reverse order - identical results required; scripts and expressions; '
+                               'non-trivial = the family holds >= 2 distinct texts')
+    families = []
+    bases = [('script', b) for b in HISTORY_BASES]
+    for _ in range(ctx.scale(150, 1500)):
+        bases.append(('script', '\n'.join(gen_program(rng)[0])))
+        bases.append(('expr', gen_expr(rng)))
+    for kind, base in bases:
+        fam = [base]
+        for v in _perturb_inside(rng, base):
+            if v not in fam:
+                fam.append(v)
+        families.append((kind, fam))
+    here = []
+    items = []
+    for kind, fam in families:
+        for text in fam:
+            items.append((kind, text))
+            here.append(jsonable(run_parse(text) if kind == 'script' else run_expr(text)))
+    fresh = fw.fresh_parse(list(reversed(items)))[::-1]
+    pos = 0
+    found = 0
+    for kind, fam in families:
+        for text in fam:
+            st.case([kind, text], nontrivial=len(fam) >= 2, tags=[kind, 'family%d' % min(len(fam), 5), here[pos][0]])
+            if json.loads(json.dumps(here[pos])) != fresh[pos]:
+                # which earlier text of the family is responsible?  [A, B] vs [B] in fresh interpreters
+                found += 1
+                if found > 5:       # each witness costs a few interpreter starts
+                    pos += 1
+                    continue
+                alone = fw.fresh_parse([(kind, text)])[0]
+                culprit = None
+                for other in fam:
+                    if other != text and fw.fresh_parse([(kind, other), (kind, text)])[1] != alone:
+                        culprit = other
+                        break
+                ctx.witness('parse-independent-of-history', {'kind': kind, 'text': text, 'history': [culprit] if culprit else None},
+                            alone, here[pos] if json.loads(json.dumps(here[pos])) != alone else fresh[pos])
+            pos += 1
+
 
 SOUP = ['v = 1', 'w = f(x)', "s = 'a # b'", 'f(x)', 'lbl:', 'jump lbl', 'jumpif (x) lbl', '?bad', 'x y', "v = 'open", 'a = 1 +', 'return 5',
         'a = 1 + \\', '2 + \\', '3', '4 +\\', 'b = f( \\', 'x, \\', 'y)', '\\', '  \\  ', "t = 'x\\\\' \\", 'z = 2 \\   ', "q = '\\\\'", 'k = 7',
@@ -1043,6 +1114,11 @@ def replay(witness):
         return not same_program(base, run_parse(feed(inp.get('as', 'list'), inp['chunks'])))
     if oracle == 'stateless':
         return run_parse(inp['text']) != run_parse(inp['text'])
+    if oracle == 'parse-independent-of-history':
+        if not inp.get('history'):
+            return False
+        alone = fw.fresh_parse([(inp['kind'], inp['text'])])[0]
+        return fw.fresh_parse([(inp['kind'], h) for h in inp['history']] + [(inp['kind'], inp['text'])])[-1] != alone
     if oracle == 'stateless-expr':
         return run_expr(inp['text']) != run_expr(inp['text'])
     if oracle == 'caret':
